@@ -258,11 +258,65 @@ def _unalias_bound_methods(tree: ast.Module) -> int:
     return n_done
 
 
+def _exitstack_to_try(tree: ast.Module) -> int:
+    """`with ExitStack() as S: pre; S.callback(f, *a); rest`  ->  `pre; try: rest  finally: f(*a)` (several callbacks nest,
+    last registered runs first).  Only when S is used for nothing but top-level `S.callback(..)` statements of the
+    with-body, so that the stack's whole effect is running those calls when the block is left."""
+    n_done = 0
+
+    def rewrite(w):
+        if not (isinstance(w, ast.With) and len(w.items) == 1):
+            return None
+        it = w.items[0]
+        ce = it.context_expr
+        if not (isinstance(ce, ast.Call) and not ce.args and not ce.keywords and ast.unparse(ce.func).split(".")[-1] == "ExitStack" and isinstance(it.optional_vars, ast.Name)):
+            return None
+        S = it.optional_vars.id
+        cbs = []
+        for i, st in enumerate(w.body):
+            if isinstance(st, ast.Expr) and isinstance(st.value, ast.Call) and isinstance(st.value.func, ast.Attribute) and isinstance(st.value.func.value, ast.Name) and st.value.func.value.id == S and st.value.func.attr == "callback" and st.value.args:
+                cbs.append(i)
+        if not cbs:
+            return None
+        uses = sum(1 for st in w.body for n in ast.walk(st) if isinstance(n, ast.Name) and n.id == S)
+        if uses != len(cbs):
+            return None
+
+        def build(k):
+            i = cbs[k]
+            st = w.body[i]
+            end = cbs[k + 1] if k + 1 < len(cbs) else len(w.body)
+            inner = list(w.body[i + 1:end]) + (build(k + 1) if k + 1 < len(cbs) else [])
+            call = ast.Expr(value=ast.Call(func=st.value.args[0], args=list(st.value.args[1:]), keywords=list(st.value.keywords)))
+            ast.copy_location(call, st)
+            ast.copy_location(call.value, st)
+            t = ast.Try(body=inner or [ast.copy_location(ast.Pass(), st)], handlers=[], orelse=[], finalbody=[call])
+            ast.copy_location(t, st)
+            t.end_lineno = getattr(w, "end_lineno", st.lineno)
+            return [t]
+
+        return list(w.body[:cbs[0]]) + build(0)
+
+    class T(ast.NodeTransformer):
+        def visit_With(self, node):
+            self.generic_visit(node)
+            r = rewrite(node)
+            if r is None:
+                return node
+            nonlocal n_done
+            n_done += 1
+            return r
+
+    T().visit(tree)
+    return n_done
+
+
 def desugar(tree: ast.Module) -> ast.Module:
     d = _Desugar()
     tree.body = d._block(tree.body)
+    n_stack = _exitstack_to_try(tree)
     n_alias = _unalias_bound_methods(tree)
-    if d.n_match or d.n_walrus or n_alias:
+    if d.n_match or d.n_walrus or n_alias or n_stack:
         ast.fix_missing_locations(tree)
-    tree._desugared = (d.n_match, d.n_walrus, n_alias)
+    tree._desugared = (d.n_match, d.n_walrus, n_alias, n_stack)
     return tree
